@@ -154,7 +154,8 @@ def shape_diff(a, b, tol, vscale=1.0):
     if sa != "none":
         wa = eff_width(a)
         wb = eff_width(b)
-        if wa is not None and wb is not None and abs(wa - wb) > 2e-4 * max(1.0, abs(wa)):
+        # the residual matrix entries are of the order 1/vscale and carry an absolute error of 5e-7 each: relative 5e-7 * vscale
+        if wa is not None and wb is not None and abs(wa - wb) > max(2e-4, 4 * 5e-7 * vscale) * max(1.0, abs(wa)):
             return "stroke width %r vs %r" % (wa, wb)
     return None
 
